@@ -41,6 +41,7 @@
   seq_more_fuel_same_answers_and_loader
   failed_request_more_fuel_further_loads
   loaded_set_grows_with_fuel
+  loaded_set_eventually_constant
 -/
 import Genshi.Lemmas.InclErase
 import Genshi.Lemmas.InclSpec
@@ -49,7 +50,7 @@ import Genshi.Lemmas.InclIllSim
 import Genshi.Lemmas.InclSeq
 import Genshi.Lemmas.InclSpecZ
 import Genshi.Lemmas.InclLogPre
-import Genshi.Lemmas.InclGrow
+import Genshi.Lemmas.InclFin
 import Genshi.Gen.Incl
 namespace Genshi.Props.C11
 open Genshi.Incl
@@ -769,6 +770,36 @@ theorem loaded_set_grows_with_fuel (m : Mode) (files : Files) {f g : Nat} (hfg :
     rw [ht]
     exact replayLoads_grows files t _
 
+theorem cacheAfterFail_in (m : Mode) (files : Files) (fuel : Nat) (c : Cache) (q : Req) (hc : In files c) :
+    In files (cacheAfterFail m files fuel c q) := by
+  cases m with
+  | runtime => exact hc
+  | inlineM =>
+    simp only [cacheAfterFail, loadT]
+    cases hx : loadInl files q.1 q.2.1 c with
+    | fuel => exact loadInlC_in files _ _ c hc
+    | err e => exact loadInlC_in files _ _ c hc
+    | ok r => exact replayLoads_in files _ _ (loadInl_in files _ _ c r hc hx)
+  | inlineU =>
+    simp only [cacheAfterFail, loadT]
+    cases hx : loadInl files q.1 q.2.1 c with
+    | fuel => exact loadInlC_in files _ _ c hc
+    | err e => exact loadInlC_in files _ _ c hc
+    | ok r => exact replayLoads_in files _ _ (loadInl_in files _ _ c r hc hx)
+
+/-- **saturation exists** (every file set, every mode): the prepared templates are files of the set
+(`Lemmas/InclFin.lean`: `In`), the set a failed request leaves grows with the fuel, so from some fuel `f0` on it is
+the same set of templates for every fuel — the state the real loader (whose limit lies far beyond the model's
+24) is compared with when the harness's test finds fuel 24 and 72 to agree.  Not proved: a bound on `f0` -/
+theorem loaded_set_eventually_constant (m : Mode) (files : Files) (c : Cache) (q : Req) (hc : In files c) :
+    ∃ f0, ∀ g, f0 ≤ g →
+      Sub (cacheAfterFail m files g c q) (cacheAfterFail m files f0 c q) ∧
+      Sub (cacheAfterFail m files f0 c q) (cacheAfterFail m files g c q) := by
+  obtain ⟨f0, h⟩ := growing_caches_const files (fun f => cacheAfterFail m files f c q)
+    (fun f => cacheAfterFail_in m files f c q hc)
+    (fun f g hfg => (loaded_set_grows_with_fuel m files hfg c q).2)
+  exact ⟨f0, fun g hg => ⟨h g hg, (loaded_set_grows_with_fuel m files hg c q).2⟩⟩
+
 /-- **the same conditions of termination, for sequences**: a list of answers none of which is "out of fuel" is
 what the code's inline mode gives for the sequence with some fuel iff it is what run-time mode gives with some
 fuel (recursive and mutually recursive includes, failed requests in the sequence, the loader's state carried
@@ -1072,6 +1103,9 @@ def exDeep : Files :=
     (nB, ⟨.markup, some [.elem ['e'] [.include (.dyn [.var ['h', '1']]) .markup false [] nB]]⟩),
     (nC, ⟨.markup, some [.elem ['p'] [.include (.dyn [.var ['h', '2']]) .markup false [] nC]]⟩)]]
 def exDeepData : List (Name × Value) := [(['h', '0'], .str nB), (['h', '1'], .str nC), (['h', '2'], .str nA)]
+
+/-- the hypothesis of `loaded_set_eventually_constant` holds for a fresh loader (and, by `cacheAfterFail_in`, stays) -/
+example : In exDeep [] := by intro n h; simp at h
 
 /-- non-vacuity of `failed_request_more_fuel_further_loads`, and what saturation means: the request runs out of
 every fuel; with fuel 0 the loader is left with 2 prepared templates, from fuel 1 on with all 3 -/
